@@ -727,7 +727,7 @@ static _ure_trie_t cclass_trie[] = {
   {'e', 1, 70, 0},
   {':', 1, 71, _URE_TITLE},
 /* mhs: duplicated, so I dont have to renumber everything */
-  {'f', 1, 77, 0},
+  {'f', 2, 77, 0},
   {'r', 2, 73, 0},
   {'a', 1, 74, 0},
   {'p', 1, 75, 0},
@@ -770,10 +770,10 @@ _ure_posix_ccl(cp, limit, sym, b)
   b = b;
 
   /*
-   * If the number of characters left is less than 7, then this cannot be
+   * If the number of characters left is less than 5, then this cannot be
    * interpreted as one of the colon delimited classes.
    */
-  if (limit < 7)
+  if (limit < 5)
     return 0;
 
   sp = cp;
@@ -787,7 +787,7 @@ _ure_posix_ccl(cp, limit, sym, b)
     if (n == 0)
       return 0;
 
-    if (*sp == ':' && (i == 6 || i == 7)) {
+    if (*sp == ':' && i >= 4) {
       sp++;
       break;
     }
